@@ -120,7 +120,7 @@ def op_classes(model, op, inst_cls):
 
 
 def run_case(program, ops, truth, model=None, loaded=None, hooks=None, scripts=None, ref_kw=None, fresh_thread=True,
-             event_budget=20000):
+             event_budget=20000, fuel=0, stack_mb=None):
     """Execute ``ops`` for real and in the reference. Ops touching undefined classes are dropped."""
     res = CaseResult()
     own_loaded = loaded is None
@@ -149,13 +149,23 @@ def run_case(program, ops, truth, model=None, loaded=None, hooks=None, scripts=N
             live.append(op)
         res.ops = live
         rk = {k: v for k, v in (ref_kw or {}).items() if k != "liskov_unconstrained_base"}
-        res.ref_log, res.ref_outs, res.ref = REF.run_ops(model, live, truth, scripts=scripts, **rk)
+        res.ref_log, res.ref_outs, res.ref = REF.run_ops(model, live, truth, scripts=scripts, fuel=fuel, **rk)
 
         def go():
-            return RUN.execute(loaded, live, truth, hooks=hooks, event_budget=event_budget)
+            if stack_mb:
+                import sys
+
+                old = sys.getrecursionlimit()
+                sys.setrecursionlimit(60000)
+                try:
+                    return RUN.execute(loaded, live, truth, hooks=hooks, event_budget=event_budget, scripts=scripts,
+                                       fuel=fuel)
+                finally:
+                    sys.setrecursionlimit(old)
+            return RUN.execute(loaded, live, truth, hooks=hooks, event_budget=event_budget, scripts=scripts, fuel=fuel)
 
         if fresh_thread:
-            res.real_log, res.real_outs, res.run = core.in_fresh_thread(go)
+            res.real_log, res.real_outs, res.run = core.in_fresh_thread(go, stack_mb=stack_mb)
         else:
             res.real_log, res.real_outs, res.run = go()
         res.loaded = loaded
